@@ -60,12 +60,15 @@ def t1_abort_wired(P, E):
         why = ""
         if sof:
             posts_in_B = [c.bb for (x, c) in d["posts"] if x.id == B.id]
+            # tasks posted from handler closures become possible as soon as B subscribes an upstream
+            if any(x.id != B.id for (x, c) in d["posts"]):
+                posts_in_B += [c.bb for c in B.calls if atom(c) == "subscribe"]
             skip_path = Effects.path_avoiding(B, B.returns, sof, start=alloc_bb)
             early_post = Effects.path_avoiding(B, posts_in_B, sof, start=alloc_bb) if posts_in_B else None
             if skip_path is None and early_post is None:
                 ok_a = True
             else:
-                why = "set_on_finalize(abort) can be skipped or comes after a post"
+                why = "set_on_finalize(abort) can be skipped or comes after a post / after the upstream was subscribed"
         # (b) every task posted on it aborts on every path
         ok_b = bool(d["posts"])
         for (x, c) in d["posts"]:
